@@ -108,6 +108,9 @@ func c07Geometry(c *fw.Ctx, idx int) {
 	t := g.BuildFlat()
 	var data []byte
 	var err error
+	if c.R.Chance(1, 4) {
+		codecNoise(c)
+	}
 	if c.Guard("panic", func() { data, err = geojson.Marshal(t) }) {
 		return
 	}
@@ -356,6 +359,12 @@ func c07CompareFeature(c *fw.Ctx, how string, want *geojson.Feature, wantG *mode
 	return expectGeom(c, how+" geometry", got.Geometry, dec, model.Opts{})
 }
 
+// decode targets that live as long as the worker process
+var (
+	c07ReusedFeature geojson.Feature
+	c07ReusedFC      geojson.FeatureCollection
+)
+
 func c07Feature(c *fw.Ctx, idx int) {
 	r := c.R
 	f, gm, _ := c07MakeFeature(r)
@@ -393,6 +402,29 @@ func c07Feature(c *fw.Ctx, idx int) {
 		return
 	}
 	if !c07CompareFeature(c, "Feature round trip", f, gm, &back) {
+		return
+	}
+	// decoding into a Feature value that still holds the previous case's result
+	// must give the same as decoding into a fresh one
+	// (members a document may omit - id, bbox - keep their old value in a reused
+	// target, as with any Go JSON decoding; the caller clears them, the geometry
+	// and the properties are always written, a null geometry as nil)
+	if f.ID == "" {
+		c07ReusedFeature.ID = ""
+	}
+	if f.BBox == nil {
+		c07ReusedFeature.BBox = nil
+	}
+	if c.Guard("panic", func() { err = c07ReusedFeature.UnmarshalJSON(data) }) {
+		return
+	}
+	c.Eval(1)
+	c.Count("decoded_into_reused_feature")
+	if err != nil {
+		c.Fail("unmarshal-error", "Feature.UnmarshalJSON into a used Feature rejected MarshalJSON output: %v", err)
+		return
+	}
+	if !c07CompareFeature(c, "Feature decoded into a Feature value used before", f, gm, &c07ReusedFeature) {
 		return
 	}
 	// the same through encoding/json and inside a FeatureCollection
@@ -438,6 +470,31 @@ func c07Feature(c *fw.Ctx, idx int) {
 	}
 	for i := range fc.Features {
 		if !c07CompareFeature(c, fmt.Sprintf("FeatureCollection feature %d", i), fc.Features[i], models[i], fcb.Features[i]) {
+			return
+		}
+	}
+	// ... and into a FeatureCollection value used before
+	if fc.BBox == nil {
+		c07ReusedFC.BBox = nil
+	}
+	if c.Guard("panic", func() { err = json.Unmarshal(data, &c07ReusedFC) }) {
+		return
+	}
+	c.Eval(1)
+	if err != nil {
+		c.Fail("unmarshal-error", "FeatureCollection unmarshal into a used value rejected its own output: %v", err)
+		return
+	}
+	if d := boundsEq(fc.BBox, c07ReusedFC.BBox); d != "" {
+		c.Fail("collection-bbox", "FeatureCollection decoded into a value used before: %s", d)
+		return
+	}
+	if len(c07ReusedFC.Features) != len(fc.Features) {
+		c.Fail("collection-size", "FeatureCollection of %d features decoded into a value used before has %d", len(fc.Features), len(c07ReusedFC.Features))
+		return
+	}
+	for i := range fc.Features {
+		if !c07CompareFeature(c, fmt.Sprintf("FeatureCollection (reused value) feature %d", i), fc.Features[i], models[i], c07ReusedFC.Features[i]) {
 			return
 		}
 	}
